@@ -34,6 +34,14 @@ RULE = ('A case is (packets, mode, cipher, cuts): 0-12 (quick) / 0-40 '
         'one of {payload within +-1 of threshold, unknown id followed by a '
         'known one, a cut inside a length prefix or compressed body, cipher '
         'on}; distinct by full case fingerprint.')
+RULE += (' ' +
+         'Added in later rounds: bursts of n frames through a real '
+         'Connection (also with the five self-parsing clientbound play '
+         'packets in between, with a play-state compression switch at '
+         'protocol 47) whose delivered packet objects are looked at again '
+         'after the burst; status sessions; frames of 1.5 MiB '
+         '(incompressible) and 3 MiB (compressible) in 6 threshold/cipher '
+         'modes. ')
 LEVEL_TEXT = ('Differential testing of the frame writer and the frame '
               'reader against an independent frame codec and cipher over '
               'generated packet sequences x thresholds x cipher x read '
